@@ -1,8 +1,12 @@
+mod c16;
+mod c17;
+mod c18;
 mod c20;
 mod c21;
 mod c22;
+mod noisekit;
 mod util;
 
 fn main() {
-    vcore::runner::main(&[("C20", c20::run), ("C21", c21::run), ("C22", c22::run)])
+    vcore::runner::main(&[("C16", c16::run), ("C17", c17::run), ("C18", c18::run), ("C20", c20::run), ("C21", c21::run), ("C22", c22::run)])
 }
